@@ -51,7 +51,9 @@ def main():
         jobs = int(a[1]); a = a[2:]
     ids = sorted(os.listdir(os.path.join(VERIF, "seeded")))
     ids = [i for i in ids if os.path.exists(os.path.join(VERIF, "seeded", i, "meta.json"))]
-    if a:
+    if a and a[0] == "--ids":
+        ids = [i for i in ids if i in a[1:]]
+    elif a:
         ids = [i for i in ids if i.split("-")[0] in a]
     tally = {}
     with ThreadPoolExecutor(max_workers=jobs) as ex:
